@@ -248,6 +248,26 @@ BUILT = {
              '8 keystone ring layouts, about 100 primitive parameter sets; lengths integer multiples of a unit, angles multiples of 30 degrees or Pythagorean. Samples exactly on '
              'a boundary are not compared.',
         technique='TLA+ specs (HexRing.tla step machine; Aperture.tla exact Z[sqrt 3] membership, tiling laws) checked by TLC; every state replayed into prysm.segmented and prysm.geometry'),
+    'C06': dict(
+        spec='Adjoint.tla, Grad.tla, ModQ.tla, Rat.tla, GridLib.tla',
+        text='Adjoint.tla is a reverse-mode tape machine: Forward applies the next stage of a program and pushes it, Backprop pops the tape and applies the '
+             'stage\'s adjoint; the machine carries the image of every input basis vector and, backwards, of every output basis vector, in exact Z[zeta_M] arithmetic '
+             '(coefficient vectors over a common denominator). Stages: matrix-DFT kernels as MatrixDFTExecutor builds them (both coordinate vectors shifted, per-axis Q), '
+             'element-wise masks built from roots of unity, integer finite-difference matrices, real mode stacks, skip connections (x - body(x)), the DM pipeline '
+             '(actuator lattice of prepare_actuator_lattice, circular convolution with the influence function, integer shift, fftshift, gain, Fourier resampling as '
+             'FFT + zoomed inverse matrix DFT + real part, pad / crop by the origin rule). TLC checks on every program: tape discipline, shapes, the normalisation '
+             'bookkeeping, the lattice, and B[i][o] = conj(A[o][i]) for ALL basis pairs (real inner product for the real DM programs); variants no-conj, negated and '
+             'forward-order must violate. The exact operators A and B are replayed into mdft.dft2/idft2 (+_backprop), Wavefront.focus_fixed_sampling(_backprop), '
+             'unfocus_fixed_sampling(_backprop), to_fpm_and_back(_backprop), babinet(_backprop), sum_of_2d_modes(_backprop), SpatialGradient2D and DM.render/render_backprop. '
+             'Grad.tla covers the non-linear nodes in exact rational arithmetic (ModQ) with dual numbers as the independent definition of the derivative: Sigmoid, Tanh, '
+             'Softplus, Arctan on the ln-rational family; Softmax, GumbelSoftmax (temperature) and DiscreteEncoder (levels) as a node WITH MEMORY whose histories of '
+             'forward calls followed by a backprop are explored (the result must be the vector-Jacobian product at the LAST forward input; a stale-forward variant must '
+             'violate); mean_square_error, bias_and_gain_invariant_error, negative_loglikelihood with and without masks (a per-sample-bias variant must violate); '
+             'intensity and amplitude-and-phase. Every state is replayed into prysm.x.optym and Wavefront.',
+        note='Trusted: TLC, ModQ interpreter, numpy. Bounded: 130 (quick) linear programs on shapes 2..5 (DM: 4..8) with Q in {1, 2, 3/2}, NQ in {2, 3, 5/2}, shifts 0, 1, 1/2, '
+             'binary / real / complex masks and Lyot stops, pupil != mask size; 128 activation cases, 15 softmax-family cases x histories up to 3, 24 cost cases, 4 field cases. '
+             'DM with rotation (spline warp), sub-sample DM shifts and the production Gumbel rng are outside the exact family.',
+        technique='TLA+ specs (Adjoint.tla reverse-mode tape machine over exact cyclotomic arrays; Grad.tla exact dual-number derivatives, stateful node histories) checked by TLC; exact operators, values and gradients replayed into the forward and *_backprop routines'),
 }
 
 NOT_BUILT_REASON = 'not built yet in this round (specification planned in DESIGN.md section 4; never decided by another technique)'
